@@ -106,7 +106,7 @@ def strict_cost_check():
     return None, out
 
 
-SUBJECTS = [("list", "node_decl_ex"), ("dict", "dnode_decl_ex"), ("optional", "onode_decl_ex"), ("union", "unode_decl_ex")]
+SUBJECTS = [("list", "node_decl_ex"), ("dict", "dnode_decl_ex"), ("optional", "onode_decl_ex"), ("union", "unode_decl_ex"), ("tuple", "tnode_decl_ex")]
 
 
 def subject_tie(res):
@@ -126,7 +126,7 @@ def subject_tie(res):
     rc, out = core.coq_eval("c18_subjects", ["Parse", "DepthSpec"], "\n".join(goals))
     ok = len([l for l in out.splitlines() if l.startswith("TIE-OK")])
     bad = [l for l in out.splitlines() if l.startswith("TIE-BAD")]
-    res.add_suite("theorem-subjects", n, ok, [dict(case="class Node(Schema): v: int; link: List['Node'] / Dict[str,'Node'] / Optional['Node'] / Union['Node', int, None], max_depth=1/2/5",
+    res.add_suite("theorem-subjects", n, ok, [dict(case="class Node(Schema): v: int; link: List['Node'] / Dict[str,'Node'] / Optional['Node'] / Union['Node', int, None] / Tuple['Node', ...], max_depth=1/2/5",
                                                    impl="reflected declaration == the declaration the theorem quantifies over")],
                   "the real classes of the three proved families reflect to the theorems' declarations (by conversion in Coq)",
                   dict(mismatches=len(bad)))
@@ -164,7 +164,7 @@ def main(tier, seed):
     findings.replay_all(res, PID, {"C18-exp-cost": exp_cost_finding})
     res.cov["leaf_conversions_invalid_chain_depth_1_to_8"] = getattr(exp_cost_finding, "counts", None)
     return core.finish(res, "make -C coq Props/C18.vo && coqc (Print Assumptions audit)", "see suites", search=None,
-                       level_note="exactness is a theorem for the List['Node'], Dict[str,'Node'], Optional['Node'] and Union['Node', int, None] families over all "
+                       level_note="exactness is a theorem for the List['Node'], Dict[str,'Node'], Optional['Node'], Union['Node', int, None] and Tuple['Node', ...] families over all "
                                   "trees / chains (the declarations are tied to the reflected real classes by the theorem-subjects "
                                   "suite); the other link kinds and option sets are covered by the depth correspondence suite + the "
                                   "nesting oracle; the cost half is a known finding (exponential), measured, not proved")
